@@ -184,7 +184,8 @@ def st_table(draw, name):
 
 @st.composite
 def st_basin(draw):
-    kind = draw(st.sampled_from(["file", "mapped", "int-sc", "int-mixed"]))
+    kind = draw(st.sampled_from(["file", "mapped", "int-sc", "int-mixed",
+                                 "int-mixed"]))
     return {"kind": kind, "seed": draw(st.integers(0, 2**16)),
             "enc": draw(st.sampled_from(["fixed-zstd1", "fixed-zstd1", "vlen",
                                          "fixed-zstd5", "fixed-contig"])),
@@ -206,7 +207,8 @@ def st_spec(draw):
     if draw(st.booleans()):
         nsc = sorted(set(nsc) | set(draw(st.lists(
             st.sampled_from(DEFECTABLE + ["frame"]), min_size=1, max_size=3))))
-    nons = draw(st.lists(st.sampled_from(NONSC), max_size=3, unique=True))
+    nons = draw(st.lists(st.sampled_from(NONSC + ["mask", "contour", "image"]),
+                         max_size=3, unique=True))
     names = sorted(set(nsc)) + sorted(nons)
     if draw(st.integers(0, 4)) == 0:
         names.append("vf_unknown")
@@ -216,7 +218,7 @@ def st_spec(draw):
     lognames = draw(st.lists(st.sampled_from(LOGNAMES), max_size=3, unique=True))
     tabnames = draw(st.lists(st.sampled_from(["tab0", "src_tab", "tab-ü"]),
                              max_size=2, unique=True))
-    nb = draw(st.sampled_from([0, 0, 0, 1, 1, 1, 1, 1, 2, 3]))
+    nb = draw(st.sampled_from([0, 0, 1, 1, 1, 1, 1, 1, 2, 3]))
     task = draw(st.sampled_from(["compress", "repack", "condense", "condense"]))
     spec = {
         "n": n,
@@ -1002,14 +1004,19 @@ def compare(rec, spec, info, pin, pout, task, opts, cls, pre, first):
                 cmp.ck("logs" not in ho or len(ho["logs"]) == 0,
                        "logs/present-despite-strip",
                        lambda: f"logs {list(ho['logs'])} written although stripped")
-        if task == "compress":
-            cmp.ck("logs" in ho and "dclab-compress" in ho["logs"]
-                   and ho["logs"]["dclab-compress"].size > 0,
-                   "logs/command-log-missing", "no dclab-compress log in output")
-        if task == "condense":
-            cmp.ck("logs" in ho and "dclab-condense" in ho["logs"]
-                   and ho["logs"]["dclab-condense"].size > 0,
-                   "logs/command-log-missing", "no dclab-condense log in output")
+        if task in ("compress", "condense"):
+            cl = f"dclab-{task}"
+            if cmp.ck("logs" in ho and cl in ho["logs"] and ho["logs"][cl].size > 0,
+                      "logs/command-log-missing", f"no {cl} log in output"):
+                # get_command_log: "Return a json dump of system parameters"
+                try:
+                    ok = isinstance(json.loads("\n".join(dec_lines(ho["logs"][cl]))),
+                                    dict)
+                except ValueError:
+                    ok = False
+                cmp.ck(ok, f"logs/command-log-not-json/{task}",
+                       f"the {cl} log of the output is not one JSON document "
+                       f"(mixed with an older log?)")
         # ---------------- tables
         if "tables" in hi:
             to = ho.get("tables", {})
